@@ -101,7 +101,7 @@ type Violation struct {
 	Replay any    `json:"replay,omitempty"`
 }
 
-// record kinds in the worker's output stream
+// record kinds in the worker's output stream (P = partial summary delta, S = final delta)
 type rec struct {
 	K string `json:"k"` // B (begin) E (end) V (violation) I (inconclusive) S (summary) N (note)
 	I int    `json:"i,omitempty"`
@@ -151,6 +151,8 @@ type Reporter struct {
 	viol       int
 	xCases     int64
 	xDistinct  int64
+	sinceFlush int
+	shipped    int
 }
 
 // NewReporter writes the record stream to path (created/truncated... appended when restart).
@@ -183,6 +185,11 @@ func (r *Reporter) End(idx int, hash string, nontrivial bool) {
 		r.hashes[hash] = struct{}{}
 	}
 	r.write(rec{K: "E", I: idx})
+	r.sinceFlush++
+	if r.sinceFlush >= 128 {
+		r.sinceFlush = 0
+		r.flushLocked("P")
+	}
 	r.mu.Unlock()
 }
 
@@ -225,7 +232,7 @@ func (r *Reporter) Count(key string, n int64) {
 // Sample keeps the first few samples offered.
 func (r *Reporter) Sample(v any) {
 	r.mu.Lock()
-	if len(r.samples) < r.maxSamples {
+	if len(r.samples)+r.shipped < r.maxSamples {
 		r.samples = append(r.samples, v)
 	}
 	r.mu.Unlock()
@@ -235,7 +242,7 @@ func (r *Reporter) Sample(v any) {
 func (r *Reporter) WantSample() bool {
 	r.mu.Lock()
 	defer r.mu.Unlock()
-	return len(r.samples) < r.maxSamples
+	return len(r.samples)+r.shipped < r.maxSamples
 }
 
 // ExhaustiveProgress records progress inside a completely enumerated sub-space.
@@ -257,20 +264,32 @@ func (r *Reporter) AddEnumerated(n, d int64) {
 	r.mu.Unlock()
 }
 
-// Finish emits the summary record.
-func (r *Reporter) Finish() {
-	r.mu.Lock()
+// flushLocked emits the accumulated counters/hashes/samples as a delta record and resets them,
+// so that what a worker observed survives a later crash of the same process.
+func (r *Reporter) flushLocked(kind string) {
 	hs := make([]string, 0, len(r.hashes))
 	for h := range r.hashes {
 		hs = append(hs, h)
 	}
 	sort.Strings(hs)
-	r.write(rec{K: "S", Sum: &Summary{Cases: r.cases, Counters: r.counters, Hashes: hs, Samples: r.samples, Exhaustive: r.exh, ExtraCases: r.xCases, ExtraDistinct: r.xDistinct}})
+	r.write(rec{K: kind, Sum: &Summary{Cases: r.cases, Counters: r.counters, Hashes: hs, Samples: r.samples, Exhaustive: r.exh, ExtraCases: r.xCases, ExtraDistinct: r.xDistinct}})
+	r.cases = 0
+	r.counters = map[string]int64{}
+	r.hashes = map[string]struct{}{}
+	r.shipped += len(r.samples)
+	r.samples = nil
+	r.exh = map[string]Exhaustive{}
+	r.xCases, r.xDistinct = 0, 0
+}
+
+// Finish emits the final summary record.
+func (r *Reporter) Finish() {
+	r.mu.Lock()
+	r.flushLocked("S")
 	_ = r.f.Sync()
 	_ = r.f.Close()
 	r.mu.Unlock()
 }
-
 // Hash returns a short stable hash of the given parts.
 func Hash(parts ...any) string {
 	h := fnv.New64a()
